@@ -9,9 +9,13 @@ What is modelled (file:line of /repo/cloudsync/event.py unless stated otherwise)
     marker, `need_walk = cursor is None or walk marker is None`; the three root configurations
     (no root, exactly one of path/oid, both), and the provider's own root overriding them (101-104);
   * `do` (171-193): `_validate_root`, `_do_unsafe`, the `CloudCursorError` handler
-    (reset the provider to `latest_cursor`, `_save_current_cursor`, `need_walk = True`, backoff);
-  * `_do_first_init` (209-224): no cursor -> take the provider's current position and persist it;
-    cursor -> position the provider on it, on rejection `need_walk` if no walk marker, re-raise;
+    (reset the provider to `latest_cursor`, `_forget_walk` = delete the stored walk marker, `_save_current_cursor`,
+    `need_walk = True`, backoff);
+  * `_do_first_init`: no cursor -> take the provider's current position, drop the stored walk marker if a walk
+    is needed (`_forget_walk`), then persist the position; cursor -> position the provider on it, on rejection
+    `need_walk` if no walk marker, re-raise;
+    (the model follows the code as repaired by `fix: … need_walk did not survive a restart`: the marker is deleted
+    BEFORE the re-seeded cursor is written, so the need for a walk is on disk whenever it is in memory)
   * `_do_walk_if_needed` (195-207): the walk loop (one delivery per object, the `stopped` check between
     two objects), the walk-marker write, `need_walk = False`;
   * `_do_unsafe` (226-242): queued events, the event loop (fetch = the provider advances its position,
@@ -75,12 +79,14 @@ structure Store where
 inductive PC where
   | idle                          -- between two do() calls
   | firstInit                     -- about to run `_do_first_init`
+  | seedSave                      -- … no stored cursor: position taken, marker dropped; about to persist the position
   | walkItem (k : Nat)            -- in the walk loop, `k` objects left; `walkItem 0` writes the marker
   | queueLoop (rest : List Int)   -- processing `self._queue`
   | events                        -- top of the event loop
   | fetched (i : Int)             -- the provider handed out event `i`; `stopped` check; not yet processed
   | save                          -- about to run `_save_current_cursor`
   | errReset                      -- CloudCursorError handler: about to reset the provider position
+  | errForget                     -- … about to delete the stored walk marker (`_forget_walk`)
   | errSave                       -- … about to persist the reset cursor and set `need_walk`
   deriving DecidableEq, Repr
 
@@ -172,12 +178,11 @@ def stepUp (s : St) (m : Mem) : St :=
   | .firstInit =>
     if m.firstDo then
       match m.cursor with
-      | none =>                                                     -- 211-214
+      | none =>                                                     -- `self.cursor = provider.current_cursor`; `_forget_walk`
         let c := CVal.int s.prov.cur
-        let m' := { m with cursor := some c, firstDo := false }
-        { s with store := { s.store with cursor := some c },
-                 mem := some { m' with pc := afterInit m' s.prov },
-                 ghost := { s.ghost with seed := s.prov.cur, walkDue := true, base := s.prov.cur } }
+        { s with store := { s.store with walked := s.store.walked && !(m.needWalk && m.rootOid) },
+                 mem := some { m with cursor := some c, pc := .seedSave },
+                 ghost := { s.ghost with seed := s.prov.cur } }
       | some v =>
         match s.prov.accept? v with
         | some c =>                                                 -- 219, 224
@@ -188,6 +193,11 @@ def stepUp (s : St) (m : Mem) : St :=
         | none =>                                                   -- 220-223
           { s with mem := some { m with needWalk := m.needWalk || !s.store.walked, pc := .errReset } }
     else { s with mem := some { m with pc := afterInit m s.prov } }
+  | .seedSave =>                                                    -- `storage_update_data(cursor_tag, self.cursor)`; `_first_do = False`
+    let m' := { m with firstDo := false }
+    { s with store := { s.store with cursor := m.cursor },
+             mem := some { m' with pc := afterInit m' s.prov },
+             ghost := { s.ghost with seed := s.prov.cur, walkDue := true, base := s.prov.cur } }
   | .walkItem (k+1) =>                                              -- 200-203
     if m.stopping then
       -- 201-202: `return` leaves `_do_walk_if_needed` only; `_do_unsafe` goes on with the queue (quirk)
@@ -221,8 +231,11 @@ def stepUp (s : St) (m : Mem) : St :=
       { s with store := { s.store with cursor := some c },
                mem := some { m with cursor := some c, pc := .idle } }
     else { s with mem := some { m with pc := .idle } }
-  | .errReset =>                                                    -- 185
-    { s with prov := { s.prov with cur := s.prov.latest }, mem := some { m with pc := .errSave } }
+  | .errReset =>                                                    -- `provider.current_cursor = provider.latest_cursor`
+    { s with prov := { s.prov with cur := s.prov.latest }, mem := some { m with pc := .errForget } }
+  | .errForget =>                                                   -- `_forget_walk()`
+    { s with store := { s.store with walked := s.store.walked && !m.rootOid },
+             mem := some { m with pc := .errSave } }
   | .errSave =>                                                     -- 186-188
     let c := CVal.int s.prov.cur
     let st' := if some c ≠ m.cursor then { s.store with cursor := some c } else s.store
@@ -340,11 +353,13 @@ def measure (s : St) : Nat :=
     | .idle => 0
     | .save => 1
     | .errSave => 1
-    | .errReset => 2
+    | .errForget => 2
+    | .errReset => 3
     | .events => 2 * d + 2
     | .fetched _ => 2 * d + 3
     | .queueLoop rest => 2 * d + 4 + rest.length
     | .walkItem k => 2 * d + 6 + m.queue.length + k
+    | .seedSave => 2 * d + 7 + m.queue.length + s.prov.objs
     | .firstInit =>
       let d' := match m.cursor.bind CVal.toInt? with
                 | some c => (s.prov.latest - c).toNat
@@ -382,7 +397,9 @@ def nextWrites (s : St) : Bool :=
   | none => false
   | some m =>
     match m.pc with
-    | .firstInit => m.firstDo && m.cursor.isNone
+    | .firstInit => m.firstDo && m.cursor.isNone && m.needWalk && m.rootOid
+    | .seedSave => true
+    | .errForget => m.rootOid
     | .walkItem 0 => true
     | .walkItem (_+1) => !m.stopping
     | .queueLoop (_ :: _) => true
